@@ -270,6 +270,7 @@ def run_case(spec, inputs=None):
     out["nontrivial"] = bool(sigs)
     out["sig"] = sigs[0] if sigs else None
     out["sets"]["history_classes"] = sigs
+    out["sigs"] = sigs
     # second monitor: flagged units cannot contribute to an extrapolation -------------------------------------
     if spec["i"] % EXTRAP_EVERY == 0 and not out["violations"]:
         v2, c2 = extrapolation_monitor(spec, as_int)
